@@ -64,6 +64,20 @@ def replay_history(w, h, rng, from_file=False):
             ex.set_cells([])
         if rng.random() < 0.2:
             ex.set_cells([xc.mk_cell(pos[c], v, rng.randint(0, 3)) for c, v in step['batch']])
+        if rng.random() < 0.3:
+            # the caller's own override Cell (the last write of the batch) is used as the query for its coordinate, first thing after the call
+            c_last, v_last = step['batch'][-1]
+            try:
+                got = xc.val_json('val', ex.get_cell(cells[-1]).value)
+            except repo.E2PyclException:
+                raise
+            except Exception:
+                got = xc.val_json('exc', None)
+            want = next(it['v'] for it in step['snap']['vals'] if it['c'] == c_last)
+            if not same_small(got, want):
+                return False, f'round {rnd + 1}: get_cell with the very Cell object that was passed to set_cells ({c_last} = {v_last}) -> {got}, expected {want}', obs
+        if rng.random() < 0.3:
+            cells[0].value = 'changed by the caller afterwards'          # the value supplied AT the call is the override
         if rng.random() < 0.25 and not xc.rejected_set(ex, pos, rng):          # Executor!RejectedSet: changes nothing
             return False, f'round {rnd + 1}: a set_cells call naming a cell that cannot exist was accepted', obs
         if lazy and rnd < len(h) - 1:
